@@ -146,6 +146,11 @@ func c18cases(tier string) []c18case {
 		{[]string{"sample"}, []string{"wthr"}, []c18flow{{From: 0, To: 1, Kind: "start"}, {From: 1, To: 0, Kind: "catch"}}},
 		{[]string{"sample", "task"}, []string{"wthr", "wtriv"}, []c18flow{{From: 0, To: 2, Kind: "start"}, {From: 2, To: 0, Kind: "catch"}}},
 		{[]string{"thr1"}, []string{"wtask"}, nil}, // a throw event without a message flow
+		// one process listening TWICE, each catch event woken by its own message flow (the second throw only after the
+		// driver answered the task in between): a wake-up must not carry over to the next catch event
+		{[]string{"thr2t", "cat2"}, nil, []c18flow{{From: 0, To: 1, Kind: "catch"}, {From: 0, To: 1, Kind: "catch2", Src: "h2"}}},
+		// (a throw event is the source of at most one message flow — BPMN 2.0 — so the instantiation comes from a third process)
+		{[]string{"thr2t", "cat2", "thr1"}, []string{"wtask"}, []c18flow{{From: 0, To: 1, Kind: "catch"}, {From: 0, To: 1, Kind: "catch2", Src: "h2"}, {From: 2, To: 3, Kind: "start"}}},
 	}
 	for fi, fs := range flowSets {
 		for mi, m := range modes {
@@ -231,11 +236,12 @@ func c18graph(id, shape string, executable bool) *eng.Graph {
 		return h
 	}
 	throw := func() *eng.Node { return throwN("h") }
-	catch := func() *eng.Node {
-		c := g.Add("intermediateCatchEvent", "c", "")
-		c.Defs = []eng.EventDef{{Kind: "message", Name: "msg_" + id + "_c"}}
+	catchN := func(n string) *eng.Node {
+		c := g.Add("intermediateCatchEvent", n, "")
+		c.Defs = []eng.EventDef{{Kind: "message", Name: "msg_" + id + "_" + n}}
 		return c
 	}
+	catch := func() *eng.Node { return catchN("c") }
 	switch shape {
 	case "triv", "wtriv":
 		chain(st, en)
@@ -265,6 +271,10 @@ func c18graph(id, shape string, executable bool) *eng.Graph {
 		chain(st, task("A"), throw(), task("B"), en)
 	case "thr2": // two throw events, one after the other
 		chain(st, task("A"), throw(), throwN("h2"), task("B"), en)
+	case "thr2t": // two throw events with a task in between (the second throw waits for the driver)
+		chain(st, task("A"), throw(), task("B"), throwN("h2"), task("C"), en)
+	case "cat2": // two catch events in sequence, each woken by its own message flow
+		chain(st, catch(), catchN("c2"), task("A"), en)
 	case "wthr":
 		chain(st, task("A"), throw(), en)
 	case "cat":
@@ -294,6 +304,9 @@ func (c c18case) graphs() ([]*eng.Graph, []eng.MsgFlow) {
 		dst := gs[f.To].ProcID + "_s"
 		if f.Kind == "catch" {
 			dst = gs[f.To].ProcID + "_c"
+		}
+		if f.Kind == "catch2" {
+			dst = gs[f.To].ProcID + "_c2"
 		}
 		src := f.Src
 		if src == "" {
